@@ -1201,9 +1201,13 @@ func EvalProgram(progSrc string, files []InputFile, rootSelectors []string, stdo
 	for _, file := range files {
 		// for each json value
 		d := json.NewDecoder(file.Reader)
-		for d.More() {
+		for {
 			var rootValue any
 			err := d.Decode(&rootValue)
+			if err == io.EOF {
+				// the clean end of the input: only whitespace was left
+				break
+			}
 			if err != nil {
 				return &ev, JsonError{err.Error(), file.Name}
 			}
